@@ -240,3 +240,9 @@ func (s *RefSketch) Folded() bool {
 	_, b := s.Neg.Edge()
 	return a || b
 }
+
+// TaintedAny reports whether any weight of the sketch is not exactly summable.
+func (s *RefSketch) TaintedAny() bool {
+	_, zok := GranOf(s.Zero)
+	return s.Tainted || s.Pos.Tainted || s.Neg.Tainted || !zok
+}
